@@ -452,6 +452,19 @@ func c13DynBody(dyn string, s *refctl.Setup, v *refctl.Verify) []byte {
 		body = sub("<none>", idL.Pub, pat(64, 3))
 	case "id-300":
 		body = sub(strings.Repeat("i", 300), idL.Pub, pat(64, 3))
+	case "valid-id-125", "valid-id-300":
+		// everything about the message is valid (right code, seal, signature) except that the identifier is longer than
+		// any file name: the pairing cannot be stored
+		n := 125
+		if variant == "valid-id-300" {
+			n = 300
+		}
+		long := refctl.NewIdentity(strings.Repeat("L", n), "c13-long-id")
+		if s != nil && s.SRP != nil {
+			body = refctl.M5Sub(s.SRP.K, long)
+		} else {
+			body = sub(long.ID, long.Pub, pat(64, 3))
+		}
 	case "name-shortkey-entity":
 		body = sub(idShortKey.ID, nil, pat(64, 4))
 	case "name-keyless-entity":
@@ -473,7 +486,7 @@ func c13DynBody(dyn string, s *refctl.Setup, v *refctl.Verify) []byte {
 	return refctl.TLVEncode(refctl.T(refctl.TagState, []byte{5}))
 }
 
-var c13DynVariants = []string{"ltpk-0", "ltpk-31", "ltpk-33", "ltpk-missing", "sig-0", "sig-63", "sig-65", "sig-missing", "id-missing", "id-300", "name-shortkey-entity", "name-keyless-entity", "empty", "garbage", "truncated"}
+var c13DynVariants = []string{"ltpk-0", "ltpk-31", "ltpk-33", "ltpk-missing", "sig-0", "sig-63", "sig-65", "sig-missing", "id-missing", "id-300", "name-shortkey-entity", "name-keyless-entity", "empty", "garbage", "truncated", "valid-id-125", "valid-id-300"}
 
 func c13Inputs(b *bed, thorough bool) []c13Input {
 	var out []c13Input
@@ -516,6 +529,9 @@ func c13Inputs(b *bed, thorough bool) []c13Input {
 			out = append(out, c13Input{State: st, Method: "POST", Path: "/pair-verify", CType: refctl.CTPairing, Body: refctl.VerifyM1(lowOrder[n]), Class: "M1:public-key-" + n})
 		}
 	}
+	// the first event operation of a verified connection is an unsubscription (alone, and together with a write)
+	out = append(out, c13Input{State: "verified", Method: "PUT", Path: "/characteristics", CType: refctl.CTJSON, Body: []byte(fmt.Sprintf(`{"characteristics":[{"aid":%d,"iid":%d,"ev":false}]}`, aid, iid)), Class: "first-ev-operation-is-unsubscribe"})
+	out = append(out, c13Input{State: "verified", Method: "PUT", Path: "/characteristics", CType: refctl.CTJSON, Body: []byte(fmt.Sprintf(`{"characteristics":[{"aid":%d,"iid":%d,"value":12,"ev":false}]}`, aid, iid)), Class: "first-ev-operation-is-write-and-unsubscribe"})
 	// a verified peer that cuts its requests into session frames in unusual but well-formed ways
 	for _, fr := range []string{"empty-first", "empty-between", "empty-last", "bytes"} {
 		out = append(out, c13Input{State: "verified", Method: "GET", Path: "/accessories", Framing: fr, Class: "framing:" + fr})
@@ -633,7 +649,7 @@ func init() {
 	fw.Register(&fw.Check{
 		ID:    "C13",
 		Level: "exploration",
-		Rule:  "for every protocol state reachable by a prefix of a correct exchange (fresh connection; pair-setup after M1 and after a right-code M3; pair-verify after M1; verified encrypted session) × every endpoint (/pair-setup, /pair-verify, /pairings, /characteristics GET+PUT, /accessories, /resource, /identify, unknown paths and methods) an input alphabet derived mechanically from the correct next messages: empty body, every prefix, every item removed / duplicated / re-tagged, item lengths 0,1,255,256,300, encrypted payloads of length 0..17 and with each of the 16 tag bytes flipped, key-exchange / finish messages CORRECTLY sealed under the running exchange's key but with malformed signed sub-TLVs (key and signature lengths 0/31/33/63/65, missing items, names of stored entities with a short or no key), method and state bytes 0..255, garbage; JSON bodies with wrong types per field, 1e999, -0, 2^64, nesting depth 10000 / 100000, duplicate keys, 1 MiB string, 5000 entries, invalid UTF-8; malformed id queries. Real transport over TCP. Oracle per input: no handler panic (net/http's panic log, attributed by remote address), a well-formed HTTP response (any status) instead of a dropped connection, then a correct pair-verify on the SAME connection after at most one rejected start (or, on a verified connection, a further encrypted request), and a correct handshake + read + write on a NEW connection. distinct_nontrivial = distinct (endpoint, state, status) classes Values for float and bool targets: \"NaN\", \"Inf\", \"1e999\", 1e999, \"0x10\", null, arrays, objects, ±1e308, 5e-324 (a verified observer is subscribed to the targets, so changes run the notification path); encrypted items of 1024…70000 bytes in pair-verify finish and pair-setup key-exchange messages; pair-verify start requests whose public key is 0, 1, p−1, p, p+1, 2^256−1 or a point of order 8; on a verified connection, requests cut into session frames in unusual well-formed ways (a frame without data before, inside or after the request; one frame per byte).",
+		Rule:  "for every protocol state reachable by a prefix of a correct exchange (fresh connection; pair-setup after M1 and after a right-code M3; pair-verify after M1; verified encrypted session) × every endpoint (/pair-setup, /pair-verify, /pairings, /characteristics GET+PUT, /accessories, /resource, /identify, unknown paths and methods) an input alphabet derived mechanically from the correct next messages: empty body, every prefix, every item removed / duplicated / re-tagged, item lengths 0,1,255,256,300, encrypted payloads of length 0..17 and with each of the 16 tag bytes flipped, key-exchange / finish messages CORRECTLY sealed under the running exchange's key but with malformed signed sub-TLVs (key and signature lengths 0/31/33/63/65, missing items, names of stored entities with a short or no key), method and state bytes 0..255, garbage; JSON bodies with wrong types per field, 1e999, -0, 2^64, nesting depth 10000 / 100000, duplicate keys, 1 MiB string, 5000 entries, invalid UTF-8; malformed id queries. Real transport over TCP. Oracle per input: no handler panic (net/http's panic log, attributed by remote address), a well-formed HTTP response (any status) instead of a dropped connection, then a correct pair-verify on the SAME connection after at most one rejected start (or, on a verified connection, a further encrypted request), and a correct handshake + read + write on a NEW connection. distinct_nontrivial = distinct (endpoint, state, status) classes Values for float and bool targets: \"NaN\", \"Inf\", \"1e999\", 1e999, \"0x10\", null, arrays, objects, ±1e308, 5e-324 (a verified observer is subscribed to the targets, so changes run the notification path); encrypted items of 1024…70000 bytes in pair-verify finish and pair-setup key-exchange messages; pair-verify start requests whose public key is 0, 1, p−1, p, p+1, 2^256−1 or a point of order 8; on a verified connection, requests cut into session frames in unusual well-formed ways (a frame without data before, inside or after the request; one frame per byte); a verified connection whose first event operation is an unsubscription; a completely valid key exchange whose identifier (125 / 300 bytes) cannot be stored.",
 		Run:   c13Run,
 		Replay: func(c *fw.Ctx, raw json.RawMessage) {
 			var in c13Input
